@@ -165,3 +165,41 @@ def faults(tier, seed, runner, lines):
     if not m and not viol:
         viol.append(('fault', ['# fault harness'], 'no summary produced:\n' + p.stdout[-1000:] + p.stderr[-2000:], False))
     return {'coverage': cov, 'violations': viol}
+
+
+def tables(tier, seed, runner, lines):
+    """C13 search: the regenerated tables of every language mode against the Standard's sets as the Lean Spec
+    computes them (the model driver's `member` answers).  A difference is a concrete failing input:
+    (language mode, set, code point)."""
+    import gen as gentables
+    cov = {}
+    viol = []
+    ok, info = gentables.gen()
+    if not ok: return {'coverage': cov, 'violations': viol}
+    names = gentables.SETS + gentables.CLASSES
+    ops = ['member %s %x' % (n, c) for n in names for c in range(256)] + ['member encbyte %x' % c for c in range(256)]
+    lean, lrc, lerr = run_ops(lean_driver(), '\n'.join(ops) + '\n')
+    want = {}
+    for i, o in enumerate(ops):
+        t = o.split(' ')
+        want[(t[1], int(t[2], 16))] = lean[i].partition(' ## ')[2].strip()
+    checked = 0
+    for m, d in sorted(info['modes'].items()):
+        for n in names:
+            for key in (n, n + '_any'):
+                mask = int(d[key][0], 16)
+                for c in range(256):
+                    checked += 1
+                    got = '1' if (mask >> c) & 1 else '0'
+                    if got != want[(n, c)] and len(viol) < 4:
+                        viol.append(('table', ['member %s %x' % (n, c)], 'language mode %s, table %s (%s of the lookups), code point U+%04X: library says %s, the Standard says %s' % (m, n, 'OR' if key.endswith('_any') else 'AND', c, 'member' if got == '1' else 'not a member', 'member' if want[(n, c)] == '1' else 'not a member'), True))
+        enc = d['encbyte'][0].split()
+        for c in range(256):
+            checked += 1
+            if enc[c] != want[('encbyte', c)] and len(viol) < 4:
+                viol.append(('table', ['member encbyte %x' % c], 'language mode %s, urlencoded byte table, byte 0x%02X: library %s, the Standard %s' % (m, c, enc[c], want[('encbyte', c)]), True))
+        if d['widemembers'][0].strip() != '0' and len(viol) < 4:
+            viol.append(('table', ['member fragment 141'], 'language mode %s: %s code units above 0xFF are reported as members of some set / class' % (m, d['widemembers'][0]), True))
+    cov['table_entries_compared'] = checked
+    cov['modes'] = sorted(info['modes'])
+    return {'coverage': cov, 'violations': viol}
